@@ -115,7 +115,31 @@ def menu(ctx: Ctx, rng: random.Random) -> tuple[list[dict], dict]:
                {"op": "bic.lookup", "cc": cps("DE"), "code": cps("00000000")},
                {"op": "iban.bank", "t": cps("DE89370400440532013000")},
                {"op": "iban.random", "country": cps("DE"), "seed": 5, "use_registry": True, "pinned": [], "vals": {}},
-               {"op": "iban.random", "country": cps("NO"), "seed": 6, "use_registry": False, "pinned": [], "vals": {}}):
+               {"op": "iban.random", "country": cps("NO"), "seed": 6, "use_registry": False, "pinned": [], "vals": {}},
+               # a second, different input of each kind and country (same-kind pairs for the line-level sweep)
+               {"op": "iban.new", "t": cps("GB29NWBK60161331926819"), "vb": False},
+               {"op": "iban.new", "t": cps("GB94BARC20201530093459"), "vb": False},
+               {"op": "bic.new", "t": cps("DEUTDEFF500"), "strict": True},
+               {"op": "bic.new", "t": cps("1234DEWWXXX"), "strict": True},
+               {"op": "iban.generate", "cc": cps("DE"), "bank": cps("43060967"), "branch": [], "acct": cps("7000534100")},
+               {"op": "iban.generate", "cc": cps("GB"), "bank": cps("NWBK"), "branch": cps("601613"), "acct": cps("31926819")},
+               {"op": "iban.generate", "cc": cps("GB"), "bank": cps("BUKB"), "branch": cps("202015"), "acct": cps("55555555")},
+               {"op": "bban.from_components", "cc": cps("AT"), "bank": cps("19043"), "branch": [], "acct": cps("234573201")},
+               {"op": "bban.from_components", "cc": cps("AT"), "bank": cps("32000"), "branch": [], "acct": cps("12345864")},
+               {"op": "bic.lookup", "cc": cps("DE"), "code": cps("20070000")},
+               {"op": "bic.lookup", "cc": cps("AT"), "code": cps("36274")},
+               {"op": "bic.lookup", "cc": cps("AT"), "code": cps("19043")},
+               {"op": "bic.reverse", "bic": cps("GENODEM1GLS")},
+               {"op": "bic.reverse", "bic": cps("DEUTDEDBHAM")},
+               {"op": "iban.bank", "t": cps("DE42430609677000534100")},
+               {"op": "iban.parts", "t": cps("DE89370400440532013000"), "ai": False},
+               {"op": "iban.parts", "t": cps("DE42430609677000534100"), "ai": False},
+               {"op": "iban.random", "country": cps("DE"), "seed": 15, "use_registry": True, "pinned": [], "vals": {}},
+               {"op": "iban.random", "country": cps("GB"), "seed": 16, "use_registry": True, "pinned": [], "vals": {}},
+               {"op": "iban.random", "country": cps("GB"), "seed": 17, "use_registry": False, "pinned": [], "vals": {}},
+               {"op": "values", "kind": "props", "a": {"cls": "IBAN", "text": cps("DE89370400440532013000"), "cc": [],
+                                                       "via": ["deepcopy"]},
+                "b": {"cls": "BBAN", "text": cps("370400440532013000"), "cc": cps("DE"), "via": ["pickle2"]}}):
         add(op, "misc")
     return callsl, by_obj
 
@@ -264,7 +288,8 @@ def run(ctx: Ctx) -> dict:
     # This does not depend on what the access recorder can see (module-level state, class attributes).
     fam = {}
     for i, c in enumerate(callsl):
-        fam.setdefault(c["op"] + ":" + text(c.get("cc") or c.get("country") or (c.get("t") or [])[:2] or []), []).append(i)
+        fam.setdefault(c["op"] + ":" + c.get("method", "") + text(c.get("cc") or c.get("country") or (c.get("t") or [])[:2]
+                                            or (c.get("bic") or [])[4:6] or []), []).append(i)
     pairs = []
     for key, idxs in sorted(fam.items()):
         if len(idxs) >= 2:
@@ -275,13 +300,15 @@ def run(ctx: Ctx) -> dict:
     for _ in range(20 if ctx.quick else 150):            # different operations
         a, b = rng.sample(keys, 2)
         pairs.append((rng.choice(fam[a]), rng.choice(fam[b])))
-    if ctx.quick and len(pairs) > 70:
-        pairs = pairs[:35] + rng.sample(pairs[35:], 35)
+    if ctx.quick and len(pairs) > 110:
+        same = [p for p in pairs if callsl[p[0]]["op"] == callsl[p[1]]["op"]]
+        other = [p for p in pairs if p not in same]
+        pairs = rng.sample(same, min(len(same), 90)) + rng.sample(other, min(len(other), 20))
     counts = thr_jobs(ctx, [{"mode": "count", "calls": [callsl[a], callsl[b]]} for a, b in pairs], "cnt")
     ljobs, lmeta = [], []
     for (a, b), c in zip(pairs, counts):
         n1, n2 = (x["lines"] for x in c["count"])
-        per_dir = 24 if ctx.quick else 10 ** 6
+        per_dir = 16 if ctx.quick else 10 ** 6
         for first, nfirst in ((1, n1), (2, n2)):
             step = max(1, nfirst // per_dir)
             for k in range(0, nfirst + 1, step):
